@@ -130,7 +130,16 @@ def only_registered(ctx):
         ty = [n for s in lp.body for n in walk_local(s) if isinstance(n, ast.If) and unparse(n.test) == "rtype not in _CLEANUP_FUNCS" and any(isinstance(x, ast.Raise) for x in n.body)]
         ctx.check(bool(ty) and g.every_path_to(g.nodes_of(c), g.nodes_of_all(ty)), ty[0] if ty else lp, "unknown resource types are rejected before any command branch")
     sp = [a for s in lp.body for a in walk_local(s) if isinstance(a, ast.Assign) and isinstance(a.targets[0], ast.Tuple) and [dotted(e) for e in a.targets[0].elts] == ["cmd", "name", "rtype"]]
-    ctx.need(sp, "the statement that splits a request into cmd, name, rtype was not found")
+    if not sp:
+        # two-step form: the command is cut off the front, the resource type off the BACK
+        rt_defs = [a for s in lp.body for a in walk_local(s) if isinstance(a, ast.Assign) and isinstance(a.targets[0], ast.Tuple) and "rtype" in [dotted(e) for e in a.targets[0].elts]]
+        ctx.need(rt_defs, "the statement that splits a request into cmd, name, rtype was not found")
+        v2 = rt_defs[0].value
+        how = call_attr(v2) if isinstance(v2, ast.Call) else None
+        good = how in ("rpartition",) or (how == "rsplit" and len(v2.args) == 2 and const_value(v2.args[1]) == 1)
+        ctx.check(good, rt_defs[0], "the resource type is what follows the LAST colon (the name may contain colons)",
+                  "the resource type is cut with `%s`: a tracked path that contains ':' is split at its first colon, the request is refused and the resource is never cleaned up" % unparse(v2, 60))
+        return
     v_ = sp[0].value
     if isinstance(v_, ast.Tuple):
         ok = [unparse(e) for e in v_.elts] == ["splitted[0]", "':'.join(splitted[1:-1])", "splitted[-1]"]
